@@ -196,8 +196,41 @@ fn fam_corner_witnesses(tag: &str, out: &mut Vec<Case>) {
         })));
     }
 }
+// "for whatever random-number generator the prover is handed": constant and short-period generators
+struct CycleRng(Vec<u8>, usize);
+impl RngCore for CycleRng {
+    fn next_u32(&mut self) -> u32 { let mut b = [0u8; 4]; self.fill_bytes(&mut b); u32::from_le_bytes(b) }
+    fn next_u64(&mut self) -> u64 { let mut b = [0u8; 8]; self.fill_bytes(&mut b); u64::from_le_bytes(b) }
+    fn fill_bytes(&mut self, d: &mut [u8]) { for x in d.iter_mut() { *x = self.0[self.1 % self.0.len()]; self.1 += 1; } }
+    fn try_fill_bytes(&mut self, d: &mut [u8]) -> Result<(), rand_core::Error> { self.fill_bytes(d); Ok(()) }
+}
+impl rand_core::CryptoRng for CycleRng {}
+fn fam_degenerate_rng(tag: &str, out: &mut Vec<Case>) {
+    let id = format!("{}:complete:degenerate-rng", tag);
+    out.push((id, Box::new(move || {
+        let mut setup = rng_for("degenerate-rng");
+        for &(bits, m, d, seed) in &[(8usize, 1usize, 1usize, true), (4, 2, 2, false)] {
+            let (statement, witness, first_r) = make_statement(&mut setup, bits, m, m, d, seed, Some(2))?;
+            let try_with = |name: &str, rng: &mut dyn FnMut(&mut Transcript) -> Result<RistrettoRangeProof, tari_bulletproofs_plus::errors::ProofError>| -> Result<(), String> {
+                let proof = rng(&mut Transcript::new(b"ctx")).map_err(|e| format!("the prover refused a valid witness when handed {}: {:?}", name, e))?;
+                let mem = Member { statement: statement.clone(), proof, blindings: first_r.clone(), seeded: seed && m == 1 };
+                for action in [VerifyAction::VerifyOnly, VerifyAction::RecoverAndVerify] {
+                    let res = verify(&[mem.clone()], action, b"ctx").map_err(|e| format!("proof made with {} rejected: {}", name, e))?;
+                    check_masks(&[mem.clone()], &res, action != VerifyAction::VerifyOnly)?;
+                }
+                Ok(())
+            };
+            for fill in [0x42u8, 0xff, 0x00] {
+                try_with(&format!("a constant RNG ({:#x})", fill), &mut |t| { let mut r = ConstRng(fill); o_prove(t, &statement, &witness, &mut r) })?;
+            }
+            try_with("an RNG of period 16 bytes", &mut |t| { let mut r = CycleRng((1u8..=16).collect(), 0); o_prove(t, &statement, &witness, &mut r) })?;
+        }
+        Ok(())
+    })));
+}
 fn fam_completeness(tag: &str, out: &mut Vec<Case>) {
     fam_corner_witnesses(tag, out);
+    fam_degenerate_rng(tag, out);
     // C01 / C12 / C09 / C10: honest proofs verify in every mode, masks are the blinding vectors, any verifier capacity works
     for &bits in &[1usize, 2, 4, 8, 16, 32, 64] {
         for &m in &[1usize, 2, 4, 8] {
@@ -660,6 +693,14 @@ fn fam_prover(tag: &str, out: &mut Vec<Case>) {
                 let mut r = base_r.clone(); r[j][d - 1] += Scalar::ONE; if run(&base_v, &base_v, &r, vec![None; m], None)? { return Err(format!("wrong blinding accepted at position {}", j)); }
             }
             if d < 6 && run(&base_v, &base_v, &base_r, vec![None; m], Some(d + 1))? { return Err("witness of a different extension degree accepted".into()); }
+            // a value of 2^bits or more stays invalid when a promise brings value - promise below 2^bits
+            if bits < 32 {
+                for j in 0..m {
+                    let mut v = base_v.clone(); v[j] = maxv + 45;
+                    let mut p: Vec<Option<u64>> = vec![None; m]; p[j] = Some(100.min(maxv));
+                    if run(&v, &v, &base_r, p, None)? { return Err(format!("value {} (>= 2^{}) accepted at position {} because value - promise fits", maxv + 45, bits, j)); }
+                }
+            }
             // a witness with a different number of openings than the statement has commitments (more, and fewer)
             for extra in [1usize, m] {
                 let cs: Vec<P> = (0..m).map(|j| params.pc_gens().commit(&Scalar::from(base_v[j]), &base_r[j]).unwrap()).collect();
@@ -879,7 +920,7 @@ fn fam_nonces(tag: &str, out: &mut Vec<Case>) {
         let c = params.pc_gens().commit(&Scalar::from(7u64), &r).map_err(|e| format!("{:?}", e))?;
         if c != params.pc_gens().commit(&Scalar::from(7u64), &r2).map_err(|e| format!("{:?}", e))? { return Err("setup: openings do not share a commitment".into()); }
         let st = RangeStatement::init(params, vec![c], vec![None], None).map_err(|e| format!("{:?}", e))?;
-        for fill in [0u8, 0x55, 0xff] {
+        for fill in [0x55u8, 0xff, 0] {
             let run = |rv: &Vec<Scalar>| -> Result<Vec<u8>, String> {
                 let w = RangeWitness::init(vec![CommitmentOpening::new(7, rv.clone())]).map_err(|e| format!("{:?}", e))?;
                 let mut bad = ConstRng(fill);
